@@ -308,7 +308,22 @@ fn trial_b(ctx: &Ctx, cs: u64) {
     let n2 = *rng.pick(&[3usize, 6, 9]);
     let (conns2, answered2) = burst(&addr, n2, "two");
     let t_peak2 = library_thread_count();
-    drop(conns2);
+    // half of the trials drop the server while every worker is busy with an open connection
+    // (so that the wake-up connection of the drop needs a brand-new thread)
+    let drop_while_busy = rng.chance(1, 2);
+    let mut busy_conns = Vec::new();
+    if drop_while_busy {
+        busy_conns = conns2;
+        while busy_conns.len() < 5 {
+            match Client::connect(&addr) {
+                Ok(c) => busy_conns.push(c),
+                Err(_) => break,
+            }
+        }
+        std::thread::sleep(Duration::from_millis(30));
+    } else {
+        drop(conns2);
+    }
     stop.store(true, Ordering::SeqCst);
     let _ = app.join();
     match Arc::try_unwrap(server) {
@@ -318,15 +333,21 @@ fn trial_b(ctx: &Ctx, cs: u64) {
             return;
         }
     }
+    std::thread::sleep(Duration::from_millis(if drop_while_busy { 200 } else { 0 }));
+    drop(busy_conns);
     std::thread::sleep(Duration::from_millis(7000));
     let t3 = library_thread_count();
     rep.inc("b:trials");
     let nontrivial = t_peak > t1;
-    let bsig = format!("b|N{}|N2_{}|peak{}", n, n2, t_peak);
+    let bsig = format!("b|N{}|N2_{}|peak{}|busydrop{}", n, n2, t_peak, drop_while_busy);
+    if drop_while_busy {
+        rep.inc("b:server_dropped_while_all_workers_busy");
+    }
     rep.eval(if nontrivial { Some(&bsig) } else { None });
     let detail = J::obj()
         .set("burst", J::u(n))
         .set("second_burst", J::u(n2))
+        .set("server_dropped_while_all_workers_busy", J::B(drop_while_busy))
         .set("library_threads_before_server", J::u(t0))
         .set("library_threads_idle_server_T1", J::u(t1))
         .set("library_threads_peak", J::u(t_peak))
